@@ -5,6 +5,7 @@ import PowHsm.Spec.C18
 import PowHsm.Admin.Commands
 import PowHsm.Proofs.Monad
 import PowHsm.Proofs.Admin
+import PowHsm.Proofs.AdminServe
 namespace PowHsm
 namespace Props.C18
 open Admin Ledger Generated M
@@ -119,6 +120,41 @@ theorem unlock_pin_only_after_checks (o : Options) (exit noExec : Bool) (w : Wor
   simp only at h1 h2 h3
   subst h1 h2 h3
   exact ⟨w0, e1, w1, hc⟩
+
+/-- **when the preconditions hold the operation is carried out** (onboarding, Ledger): against a
+    device in bootloader mode that echoes correctly and is not yet onboarded, with an operator who
+    answers yes and a policy-compliant PIN, `do_onboard` ends normally having sent — after the four
+    checks and nothing else — exactly the 32 bytes the random source produced as seed (one message
+    per byte, in order), the length-prefixed PIN, and the wipe command, and then closes the device -/
+theorem onboard_carried_out {w : World} (o : Options) (p ans : String) (more : List String)
+    (sacks packs : List Bytes) {a b c x : UInt8} {tl : Bytes} {rest : List Resp}
+    (ho : o.pin = some p) (hv : pinValid (utf8 p) false = true)
+    (hplat : w.platform = .ledger) (hout : o.hasOutput = true) (hc : w.conns = [])
+    (hin : w.stdinLines = ans :: more) (hyes : (rstrip ans).toLower = "yes")
+    (hseed : w.seed.length = 32) (hsl : sacks.length = w.seed.length) (hpl : packs.length = (utf8 p).length + 1)
+    (h : w.script = Resp.data [0x80, 2] :: Resp.data [0x80, 0x02, 0x41, 0x42, 0x43] ::
+          Resp.data [0x80, 0, a, b, c] ::
+          (sacks.map Resp.data ++ (packs.map Resp.data ++ Resp.data (x :: 2 :: tl) :: rest))) :
+    (doOnboard o w).val = .ok () ∧
+    (doOnboard o w).evs =
+      [.connect true, .apdu [Dongle.CLA, Tbl.u8 Generated.Command_GET_MODE],
+        .apdu [Dongle.CLA, Tbl.u8 Generated.Command_ECHO, 0x41, 0x42, 0x43],
+        .apdu [Dongle.CLA, Tbl.u8 Generated.Command_IS_ONBOARD]] ++
+       (seedMsgs 0 w.seed ++ (pinMsgs 0 (UInt8.ofNat (utf8 p).length :: utf8 p) ++
+         [.apdu [Dongle.CLA, Tbl.u8 Generated.Command_WIPE]])) ++ [.disconnect] := by
+  have := doOnboard_runs o p ans more sacks packs ho hv hplat hout hc hin hyes hseed hsl hpl h
+  unfold Runs at this
+  rw [this]
+  exact ⟨rfl, rfl⟩
+
+/-- non-vacuity: an operator answer and a PIN that meet the hypotheses -/
+example : (rstrip "Yes \n").toLower = "yes" ∧
+    pinValid [0x61, 0x62, 0x63, 0x64, 0x31, 0x32, 0x33, 0x34] false = true := by
+  refine ⟨?_, by decide⟩
+  have : rstrip "Yes \n" = "Yes" := by simp [rstrip]
+  rw [this]
+  apply String.toList_injective
+  simp [String.toLower, String.toList_map]
 
 end Props.C18
 end PowHsm
